@@ -147,13 +147,16 @@ func H08_unlock() {
 	if err != nil {
 		return
 	}
-	refuseUnlock := vChoose(2, "upstream-refuses-unlock") == 1
-	if refuseUnlock {
+	refuseUnlock := vChoose(3, "upstream-refuses-unlock")
+	if refuseUnlock != 0 {
 		up.failAt = up.calls
+		if refuseUnlock == 2 {
+			up.failText = "agent: client error: EOF" // the connection to the underlying agent broke
+		}
 	}
 	err = s.Unlock(q)
 	same := len(p) == len(q) && vEqBytes(p, q)
-	if refuseUnlock {
+	if refuseUnlock != 0 {
 		vAssert(err != nil && s.locked, "C08.refused-unlock-leaves-shim-locked")
 		vReach("C08.unlock-refused-upstream")
 		return
